@@ -512,6 +512,8 @@ def generate_richardson_integrator(basis_integrator, richardson_iter=2):
             dtstep = timestep / num_intervals
             self.__interpolants = []
             self.__interpolant_times = []
+            # the basis integrator restarts from the step's initial state: its cached end-of-step slope does not apply
+            self.basis_integrators[int_num].final_rhs = None
             for interval in range(num_intervals):
                 dt, (dt_z, dy_z) = self.basis_integrators[int_num](rhs, initial_time + dt_now,
                                                                    initial_state + dstate_now,
